@@ -22,16 +22,20 @@ from .. import async_driver as A
 
 TRACE_CONSTS = [('Alphabet', '= {"a","b","n","r"}'), ('MaxChunk', '= 3')]
 PS1, PS2 = '[PEXPECT_PROMPT>', '[PEXPECT_PROMPT+'
+# prompt pairs the caller may choose (REPLWrapper takes any two strings): equal and unequal lengths, the shorter one
+# sorting above or below the longer one, a pair without a common prefix
+PROMPT_PAIRS = [(PS1, PS2), ('[P]> ', '[P]+++> '), ('[P]+++> ', '[P]> '), ('> ', '+++ '), ('[PEX]', '[PEX+')]
 NOISE = '\nKeyboardInterrupt\n'
 
 
 class ReplEnv(object):
     """the environment of spec/Repl.tla: lines in, text out"""
 
-    def __init__(self):
+    def __init__(self, ps1=PS1, ps2=PS2):
         self.state = 'top'
         self.inbuf = ''
         self.nblock = 0          # lines received inside the current block (blank ones included)
+        self.ps1, self.ps2 = ps1, ps2
 
     def feed(self, text):
         out = ''
@@ -44,33 +48,33 @@ class ReplEnv(object):
     def line(self, ln):
         if self.state == 'top':
             if ln.startswith('c:'):
-                return ln[2:].replace('~', '\n') + PS1
+                return ln[2:].replace('~', '\n') + self.ps1
             if ln == 'open':
                 self.state = 'cont'
                 self.nblock = 0
-                return PS2
-            return PS1
+                return self.ps2
+            return self.ps1
         if ln.startswith('close:'):
             self.state = 'top'
-            return ln[6:].replace('~', '\n') + 'b' * self.nblock + PS1
+            return ln[6:].replace('~', '\n') + 'b' * self.nblock + self.ps1
         self.nblock += 1
-        return PS2
+        return self.ps2
 
     def interrupt(self):
         if self.state == 'cont':
             self.state = 'top'
-            return NOISE + PS1
-        return NOISE + PS1
+            return NOISE + self.ps1
+        return NOISE + self.ps1
 
 
 class ReplChild(Scripted):
     """scripted-transport REPL: what it prints is cut into chunks of the chosen sizes"""
 
-    def __init__(self, chunker, **kw):
+    def __init__(self, chunker, prompts=(PS1, PS2), **kw):
         Scripted.__init__(self, [], encoding='utf-8', **kw)
-        self.env = ReplEnv()
+        self.env = ReplEnv(*prompts)
         self.chunker = chunker
-        self.cur = PS1.encode()
+        self.cur = prompts[0].encode()
         self.echo = False
         self.rec = None
 
@@ -99,7 +103,7 @@ class ReplChild(Scripted):
 # command kinds: (lines to send, expected output, incomplete?)
 def make_command(rng, big=False):
     k = rng.random()
-    payload = lambda: ''.join(rng.choice('ab[P~ ') for _ in range(rng.randint(0, 6 if not big else 40)))
+    payload = lambda: ''.join(rng.choice('ab[P~ \u00e9\u20ac') for _ in range(rng.randint(0, 6 if not big else 40)))
     if k < 0.35:
         o = payload()
         return ('c:' + o, o.replace('~', '\n'), False)
@@ -129,16 +133,22 @@ def run_scripted(rng, tid, ncmds, big=False, use_async=False):
     install()
     clock = VClock().install(expect_mod)
     sizes = rng.choice([[1], [2, 3], [7], [1000], [1, 2, 3, 5, 8, 1000]])
+    prompts = PROMPT_PAIRS[0] if rng.random() < 0.4 else rng.choice(PROMPT_PAIRS)
     events = []
     try:
         if use_async:
-            return run_scripted_async(rng, tid, ncmds, sizes)
-        child = ReplChild(lambda n: min(n, rng.choice(sizes)), timeout=5)
+            return run_scripted_async(rng, tid, ncmds, sizes, prompts)
+        child = ReplChild(lambda n: min(n, rng.choice(sizes)), prompts=prompts, timeout=5)
         rec = Recorder(child, MAPPING)
         child.rec = rec
-        rec.annot = {'pats': [P.lit(ab(PS1)), P.lit(ab(PS2))]}
-        w = replwrap.REPLWrapper(child, PS1, None)
-        cmds = []
+        rec.annot = {'pats': [P.lit(ab(prompts[0])), P.lit(ab(prompts[1]))], 'W': 0}
+        meta = {'cmds': [], 'sizes': sizes, 'async': False, 'seed': None, 'prompts': list(prompts)}
+        try:
+            w = replwrap.REPLWrapper(child, prompts[0], None, continuation_prompt=prompts[1])
+        except Exception as e:
+            meta['start_error'] = '%s: %s' % (type(e).__name__, str(e)[:200])
+            return {'id': tid, 'ev': rec.events, 'meta': meta}
+        cmds = meta['cmds']
         for _ in range(ncmds):
             cmd, want, incomplete = make_command(rng, big)
             cmds.append(cmd)
@@ -151,15 +161,15 @@ def run_scripted(rng, tid, ncmds, big=False, use_async=False):
             except Exception as e:
                 raised = type(e).__name__
             rec.emit(e='cmdret', val=ab(val), raised=raised, incomplete=incomplete)
-        return {'id': tid, 'ev': rec.events, 'meta': {'cmds': cmds, 'sizes': sizes, 'async': False, 'seed': None}}
+        return {'id': tid, 'ev': rec.events, 'meta': meta}
     finally:
         clock.uninstall()
 
 
 class AsyncReplChild(A.TimelineSpawn):
-    def __init__(self, world):
+    def __init__(self, world, prompts=(PS1, PS2)):
         A.TimelineSpawn.__init__(self, world, timeout=5, encoding='utf-8')
-        self.env = ReplEnv()
+        self.env = ReplEnv(*prompts)
         self.echo = False
 
     def send(self, s):
@@ -173,10 +183,10 @@ class AsyncReplChild(A.TimelineSpawn):
             self.world.emit_chunks(self.env.interrupt().encode())
 
 
-def run_scripted_async(rng, tid, ncmds, sizes):
+def run_scripted_async(rng, tid, ncmds, sizes, prompts=(PS1, PS2)):
     w = A.AsyncWorld(MAPPING, [])
     # replace the world's spawn by a REPL child on the same timeline
-    sp = AsyncReplChild(w)
+    sp = AsyncReplChild(w, prompts)
     w.sp = sp
     w.rec = Recorder(sp, MAPPING)
     orig_log = sp._log
@@ -198,15 +208,20 @@ def run_scripted_async(rng, tid, ncmds, sizes):
             t += rng.choice([0, 0, 0.01])
         w.arrivals.sort(key=lambda x: x[0])
     w.emit_chunks = emit_chunks
-    emit_chunks(PS1.encode())
+    emit_chunks(prompts[0].encode())
     rec = w.rec
-    rec.annot = {'pats': [P.lit(ab(PS1)), P.lit(ab(PS2))]}
+    rec.annot = {'pats': [P.lit(ab(prompts[0])), P.lit(ab(prompts[1]))], 'W': 0}
     import pexpect._async as _async_mod
     _async_mod.expect_async = w._recorded_expect_async
-    cmds = []
+    meta = {'cmds': [], 'sizes': sizes, 'async': True, 'prompts': list(prompts)}
+    cmds = meta['cmds']
 
     async def main():
-        wrapper = replwrap.REPLWrapper(sp, PS1, None)
+        try:
+            wrapper = replwrap.REPLWrapper(sp, prompts[0], None, continuation_prompt=prompts[1])
+        except Exception as e:
+            meta['start_error'] = '%s: %s' % (type(e).__name__, str(e)[:200])
+            return
         for _ in range(ncmds):
             cmd, want, incomplete = make_command(rng)
             cmds.append(cmd)
@@ -223,18 +238,53 @@ def run_scripted_async(rng, tid, ncmds, sizes):
         w.loop.run_until_complete(main())
     finally:
         w.close()
-    return {'id': tid, 'ev': rec.events, 'meta': {'cmds': cmds, 'sizes': sizes, 'async': True}}
+    return {'id': tid, 'ev': rec.events, 'meta': meta}
 
 
 # ---- real REPLs ------------------------------------------------------------------------------
-def real_repl(kind, rng, ncmds, ctx, big_sizes):
+RC_FILES = {
+    # what a user's ~/.bashrc may contain (bashrc.sh sources it before replwrap sets its prompts)
+    'plain': None,
+    'rc_scalar': "PS1='user> '\nPROMPT_COMMAND='printf RCNOISE'\n",
+    'rc_array': "PS1='user> '\nPROMPT_COMMAND=('true' 'printf RCNOISE')\n",      # array form, bash >= 5.1
+    'rc_ps2': "PS2='cont> '\nPS0='[ps0]'\nunset PS0\n",
+}
+
+
+def start_real(kind, variant):
+    import shutil, tempfile
+    if kind == 'bash':
+        home = tempfile.mkdtemp(prefix='verif-home-')
+        if RC_FILES[variant] is not None:
+            with open(os.path.join(home, '.bashrc'), 'w') as f:
+                f.write(RC_FILES[variant])
+        saved = os.environ.get('HOME')
+        os.environ['HOME'] = home
+        try:
+            r = replwrap.bash()
+        finally:
+            if saved is None:
+                del os.environ['HOME']
+            else:
+                os.environ['HOME'] = saved
+        return r, (lambda: shutil.rmtree(home, ignore_errors=True))
+    if variant == 'default':
+        return replwrap.python(sys.executable), (lambda: None)
+    # caller-chosen prompts of unequal length (any two strings are allowed)
+    new, cont = {'short_first': ('[py]> ', '[py]...> '), 'long_first': ('[py]...> ', '[py]> ')}[variant]
+    return replwrap.REPLWrapper(sys.executable, u'>>> ', u'import sys; sys.ps1={0!r}; sys.ps2={1!r}',
+                                new_prompt=new, continuation_prompt=cont), (lambda: None)
+
+
+def real_repl(kind, rng, ncmds, ctx, big_sizes, variant):
     """generated commands with output known by construction on the real bash / python REPL;
     returns (number of commands, failures)"""
     fails = []
-    if kind == 'bash':
-        r = replwrap.bash()
-    else:
-        r = replwrap.python(sys.executable)
+    try:
+        r, cleanup = start_real(kind, variant)
+    except Exception as e:
+        return 0, [('C16:wrapper-cannot-start', kind + '/' + variant, '<start>', '%s: %s' % (type(e).__name__, str(e)[:300]))]
+    kind_v = kind + '/' + variant
     r.child.timeout = 30
     n = 0
     try:
@@ -277,21 +327,22 @@ def real_repl(kind, rng, ncmds, ctx, big_sizes):
             try:
                 got = r.run_command(cmd, timeout=30)
                 if inc:
-                    fails.append(('C16:incomplete-input-does-not-raise-ValueError', kind, cmd, repr(got)[:200]))
+                    fails.append(('C16:incomplete-input-does-not-raise-ValueError', kind_v, cmd, repr(got)[:200]))
                 elif got != want:
-                    fails.append(('C16:not-exactly-the-command\'s-own-output', kind, cmd,
+                    fails.append(('C16:not-exactly-the-command\'s-own-output', kind_v, cmd,
                                   'got %d chars %r..., want %d chars %r...' % (len(got), got[:60], len(want), want[:60])))
             except ValueError as e:
                 if not inc:
-                    fails.append(('C16:complete-command-raised', kind, cmd, str(e)[:200]))
+                    fails.append(('C16:complete-command-raised', kind_v, cmd, str(e)[:200]))
             except Exception as e:
-                fails.append(('C16:wrapper-unusable', kind, cmd, '%s: %s' % (type(e).__name__, str(e)[:300])))
+                fails.append(('C16:wrapper-unusable', kind_v, cmd, '%s: %s' % (type(e).__name__, str(e)[:300])))
                 break
     finally:
         try:
             r.child.close(force=True)
         except Exception:
             pass
+        cleanup()
     return n, fails
 
 
@@ -322,19 +373,24 @@ def run(ctx):
         raise tlc.TLCError('harness-level verdicts: %s' % [(k, v) for k, v in verdicts.items() if v[0].startswith('harness:')][:3])
     for t in traces:
         v, at = verdicts[t['id']]
-        if v != 'ok':
+        if t['meta'].get('start_error'):
+            ctx.fail('C16:wrapper-cannot-start', {'meta': t['meta']}, detail={'what': t['meta']['start_error'], 'events': t['ev'][-12:]},
+                     signature={'async': t['meta']['async']})
+        elif v != 'ok':
             clause = v if v.startswith('C16:') else 'C16:expect-inside-run_command-breaks-contract(' + v + ')'
             ctx.fail(clause, {'meta': t['meta']}, detail={'event_index': at, 'events': t['ev'][max(0, at - 12):at]},
                      signature={'async': t['meta']['async']})
     # real REPLs
     big = [1000, 70000] if ctx.quick() else [1000, 70000, 300000]
     nreal = 0
-    for kind in ('bash', 'python'):
-        n, fails = real_repl(kind, random.Random(ctx.seed * 17 + len(kind)), 40 if ctx.quick() else 400, ctx, big)
+    for kind, variant, share in (('bash', 'plain', 1.0), ('bash', 'rc_scalar', 0.3), ('bash', 'rc_array', 0.3), ('bash', 'rc_ps2', 0.3),
+                                 ('python', 'default', 1.0), ('python', 'short_first', 0.4), ('python', 'long_first', 0.4)):
+        ncmd_real = int((40 if ctx.quick() else 400) * share)
+        n, fails = real_repl(kind, random.Random(ctx.seed * 17 + len(kind) + len(variant)), ncmd_real, ctx, big, variant)
         nreal += n
         for f in fails:
             ctx.fail(f[0], {'repl': f[1], 'command': f[2]}, detail={'what': f[3]}, signature={'repl': f[1]})
-        ctx.note('real %s REPL: %d generated commands (outputs up to %d bytes), %d mismatches' % (kind, n, max(big), len(fails)))
+        ctx.note('real %s REPL (%s): %d generated commands (outputs up to %d bytes), %d mismatches' % (kind, variant, n, max(big), len(fails)))
     # binding self-test
     cands = [t for t in traces if verdicts[t['id']][0] == 'ok' and any(e['e'] == 'cmdret' and e['val'] for e in t['ev'])]
     a = copy.deepcopy(cands[0]); a['id'] = 'corrupt'
